@@ -17,7 +17,7 @@ ASSUMPTIONS = [
     "a negative dHI0 in the catalogue (-9 = not applicable: SugarCane, AlfalfaGDD) is read as 'no increase allowed'",
     "tolerances: 1e-9 absolute on dimensionless quantities, 1e-9 relative on the cumulative degree-day sum, 1e-12 on root shrinkage",
 ]
-BUDGET = {"quick": 300, "thorough": 5000}
+BUDGET = {"quick": 450, "thorough": 5000}
 HI_PRE = [c for c in gen.CROPS if float(gen.crop_params[c].get("dHI_pre", 0) or 0) > 0]   # crops whose HI can rise before flowering
 PROFILE = gen.profile(crops=HI_PRE + list(gen.CROPS) * 2, p_override=0.6, pen=True, p_custom_soil=0.5, p_gw=0.35, gw_shallow=True, temp_events=(0, 3),
                       dry_spells=(0, 2), seasons=(1, 2), max_days=800, switches=True,
